@@ -229,6 +229,9 @@ impl Property for C10 {
     fn shard_size(&self) -> u64 {
         8
     }
+    fn shrink_iters(&self) -> u32 {
+        100
+    }
     fn classes(&self) -> Vec<ClassSpec> {
         self.classes.iter().map(|c| c.0.clone()).collect()
     }
